@@ -97,12 +97,14 @@ class Call:
 class Ob:
     def __init__(self, name, kind, inputs, calls, assume, goal, ub=False, portfolio=None, timeout=None,
                  natives=None, note="", extra_asserts=(), expect_unsat=True, abstract=False, fallback=None,
-                 comm_lemmas=True, also_ub=False, exact=None):
+                 comm_lemmas=True, also_ub=False, exact=None, magnitude=False, ub_filter=None):
         self.name, self.kind, self.inputs, self.calls = name, kind, list(inputs), list(calls)
         self.assume, self.goal, self.ub = assume, goal, ub
         self.portfolio, self.timeout, self.natives, self.note = portfolio, timeout, natives, note
         self.extra_asserts = list(extra_asserts)
         self.abstract, self.fallback, self.comm_lemmas = abstract, fallback, comm_lemmas
+        self.ub_filter = ub_filter  # optional predicate(kind, ir text, cond) selecting the UB sites this obligation covers
+        self.magnitude = magnitude  # add |X|<2^p => |X*Y| <= |Y|*2^p lemma instances for abstracted products
         self.exact = exact          # optional exact concrete decision of the PROPERTY: f(inputs: {name: int}, outs: [int]) -> bool
         self.also_ub = also_ub      # value obligation that additionally requires "no UB site reachable" on its domain
         self.outcome = None
@@ -202,7 +204,7 @@ class Run:
             asserts.extend(sub(x) for x in r.assumes)
             if not z3.is_false(r.unwind):
                 unwind.append(sub(r.unwind))
-            ubs.extend((k, t, sub(cnd)) for k, t, cnd in r.ub)
+            ubs.extend((k, t, sub(cnd)) for k, t, cnd in r.ub if ob.ub_filter is None or ob.ub_filter(k, t, cnd))
             subs.append((c.out, sub(c.term)))
         ob._subs = list(subs)
         if ob.assume is not None:
@@ -231,6 +233,8 @@ class Run:
                 if not x.eq(y):
                     asserts.append(app == app.decl()(y, x))
                 asserts.extend(E.mul_lemmas(app))
+                if ob.magnitude:
+                    asserts.extend(E.magnitude_lemmas(app))
         if self.pin:
             for c in ob.inputs:
                 if c.decl().name() in self.pin:
